@@ -38,9 +38,11 @@ MAX_DEPTH = 6
 
 ZERO = {"np.zeros": 0, "np.ones": 1, "np.empty": None, "numpy.zeros": 0, "numpy.ones": 1, "numpy.empty": None}
 LIKE = {"np.zeros_like": 0, "np.ones_like": 1, "np.empty_like": None}
-IDENT_FUNCS = {"np.atleast_1d", "np.atleast_2d", "np.asarray", "np.array", "np.ascontiguousarray", "np.asfortranarray", "float", "complex", "np.real"}
+IDENT_FUNCS = {"np.atleast_1d", "np.atleast_2d", "np.asarray", "np.array", "np.ascontiguousarray", "np.asfortranarray", "float", "complex", "np.real",
+               "np.ravel", "np.squeeze", "np.reshape", "np.asanyarray"}      # function form of IDENT_METHODS: the same elements
 IDENT_METHODS = {"astype", "copy", "ravel", "flatten", "squeeze", "reshape"}
 REDUCERS = {"any", "all", "sum", "max", "min", "mean", "prod", "cumsum", "nonzero"}     # np.F(x, ...) == x.F(...)
+NP_CMP = {"np.not_equal": "NotEq", "np.equal": "Eq", "np.greater": "Gt", "np.less": "Lt", "np.greater_equal": "GtE", "np.less_equal": "LtE"}
 SOLVE = {"linalg.solve", "la.solve", "scipy.linalg.solve", "np.linalg.solve", "sp.linalg.solve"}
 
 
@@ -566,7 +568,14 @@ class CBEval(AutoEvaluator):
             v = self.as_rat(v)
             return v if is_unknown(v) else F.fn("star", v)
         if isinstance(node, ast.Lambda):
-            return F.sym("<lambda>")
+            # a lambda is a closure whose body is one return statement
+            fd = ast.FunctionDef(name="<lambda>", args=node.args, body=[ast.Return(value=node.body)], decorator_list=[], returns=None, type_comment=None)
+            ast.copy_location(fd, node)
+            ast.copy_location(fd.body[0], node)
+            for att in ("_vmod", "_vparent"):
+                if hasattr(node, att):
+                    setattr(fd, att, getattr(node, att))
+            return Closure(fd, self)
         if isinstance(node, ast.Compare) and len(node.ops) == 1:
             a, b = self.as_rat(self._ev(node.left)), self.as_rat(self._ev(node.comparators[0]))
             if is_unknown(a) or is_unknown(b):
@@ -680,6 +689,13 @@ class CBEval(AutoEvaluator):
                 x = self._ev(node.value.value)
                 if is_rat(x):
                     return F.fn("dim", x, k)
+        if dotted(node.value) in ("np.r_", "numpy.r_") and not self.is_object_root("np"):
+            # the index trick np.r_[a, b, ...] concatenates one-dimensional pieces
+            elts = node.slice.elts if isinstance(node.slice, ast.Tuple) else [node.slice]
+            if not any(isinstance(e, (ast.Slice, ast.Starred)) or (isinstance(e, ast.Constant) and isinstance(e.value, str)) for e in elts):
+                xs = [self.as_rat(self.ev(e)) for e in elts]
+                if all(is_rat(x) and not x.is_const() for x in xs):
+                    return F.fn("cat", *xs)
         base = self._ev(node.value)
         if is_unknown(base):
             return base
@@ -717,6 +733,9 @@ class CBEval(AutoEvaluator):
         u = unfn(base)
         if u is not None and u[0] == "attr:shape" and is_rat(ix) and ix.is_const():
             return F.fn("dim", u[1][0], ix)
+        ch = _chained(base, ix)
+        if ch is not None:
+            return ch
         b = self.buf_of(base)
         if b is not None and self.forward_stores:
             last = None
@@ -805,14 +824,28 @@ class CBEval(AutoEvaluator):
             self._assign(t, v, st)
 
     # ------------------------------------------------------------------ calls
+    aliases = None       # import table of the module: local name -> canonical dotted name (see import_aliases)
+
+    def _canon_name(self, d):
+        """the canonical spelling of a dotted call name: the way a module / function was imported does not matter"""
+        if d is None or self.aliases is None:
+            return d
+        root, _, rest = d.partition(".")
+        if self.is_object_root(root) or root in self.inline:
+            return d
+        if rest:
+            m = self.aliases["module"].get(root)
+            return d if m is None else m + "." + rest
+        return self.aliases["member"].get(root, d)
+
     def _call(self, node):
         func = node.func
-        d = dotted(func)
+        d = self._canon_name(dotted(func))
         recv = None
         name = d
         if isinstance(func, ast.Attribute):
             root = d.split(".")[0] if d else None
-            if d is None or self.is_object_root(root):
+            if d is None or self.is_object_root(dotted(func).split(".")[0]):
                 recv = self.ev_ref(func.value) if func.attr in ("copy", "astype") else self.ev(func.value)
                 name = "." + func.attr
         elif isinstance(func, ast.Name):
@@ -872,7 +905,22 @@ class CBEval(AutoEvaluator):
         self.w.seq += 1
         self.w.calls.append((name, list(pos), dict(kws), node, self.w.seq))
 
+    sigs = None          # f(call name) -> parameter names of a function of another module of the package (keyword == positional), or None
+
+    def _canon_args(self, name, pos, kws):
+        """keyword arguments of a call whose signature can be read (a function of a sibling module) go to their positions"""
+        if not kws or self.sigs is None or name.startswith("."):
+            return pos, kws
+        sig = self.sigs(name)
+        if not sig:
+            return pos, kws
+        pos, kws = list(pos), dict(kws)
+        while len(pos) < len(sig) and sig[len(pos)] in kws:
+            pos.append(kws.pop(sig[len(pos)]))
+        return pos, kws
+
     def _opaque(self, name, pos, kws):
+        pos, kws = self._canon_args(name, pos, kws)
         args = []
         for v in pos:
             v = self.as_rat(v)
@@ -960,6 +1008,11 @@ class CBEval(AutoEvaluator):
                 b0 = self.buf_of(pos[0])
                 shape = b0.shape if b0 is not None else ("like", pos[0])
             return self.new_buf("@", UNINIT if fill is None else F.const(fill), node, shape).sym
+        if name in ("np.full", "numpy.full") and (n >= 2 or "fill_value" in kws):
+            fv = pos[1] if n >= 2 else kws["fill_value"]
+            shp = pos[0] if n >= 1 else kws.get("shape")
+            if is_rat(fv) and shp is not None:
+                return self.new_buf("@", fv, node, shp if isinstance(shp, tuple) else (shp,)).sym          # np.full(shape, c) is np.zeros / np.ones with another fill
         # ---- identity on the elements
         if name in IDENT_FUNCS and n >= 1:
             return tuple(pos[0]) if isinstance(pos[0], PyList) else pos[0]
@@ -981,10 +1034,16 @@ class CBEval(AutoEvaluator):
             return self._builtin("." + name[3:], pos, kws, node)
         if name.startswith(".") and name[1:] in REDUCERS and n >= 1 and is_rat(pos[0]):
             p, k = self._axis_kw(pos, kws, 1)
+            if name in (".any", ".all", ".nonzero"):
+                u0 = unfn(p[0])
+                if u0 is not None and u0[0] == "cmp:NotEq" and len(u0[1]) == 2 and is_rat(u0[1][1]) and u0[1][1].is_zero():
+                    p = [u0[1][0]] + list(p[1:])          # truth of an element is `element != 0`
             if name == ".nonzero":
                 return (F.fn("nonzero0", p[0]), F.fn("nonzero1", p[0]))
             self._record(name, p, k, node)
             return self._opaque(name, p, k)
+        if name in NP_CMP and n == 2 and rat and not kws:
+            return F.fn("cmp:" + NP_CMP[name], pos[0], pos[1])
         if name == "np.flatnonzero" and n == 1 and rat:
             return F.fn("nonzero0", pos[0])
         if name in ("np.abs", "np.absolute", "abs") and n == 1 and is_rat(pos[0]):
@@ -1091,6 +1150,7 @@ class CBEval(AutoEvaluator):
         sub = CBEval(fn, world=self.w, facts=self.facts, callv=self.callv, inline=self.inline, handler_path=self.handler_path, depth=self.depth + 1,
                      env=env, cond=self.cond, src=self.src, subscript=self.subscript)
         sub.module_consts = self.module_consts
+        sub.sigs, sub.aliases = self.sigs, self.aliases
         sub.erase_T, sub.forward_stores = self.erase_T, self.forward_stores
         sub.active = self.active + (fn,)
         if closure is not None:
@@ -1282,6 +1342,8 @@ class CBEval(AutoEvaluator):
                 v = self.ev(it.context_expr)
                 if it.optional_vars is not None:
                     self._assign(it.optional_vars, v, st)
+            if self.handler_path is not None and any(_is_suppress(it.context_expr) for it in st.items) and self.handler_path(st):
+                return          # `with suppress(E): body` is `try: body / except E: pass`; on the handler path the body raised at once
             self.run(st.body)
             return
         if isinstance(st, ast.Try):
@@ -1326,7 +1388,15 @@ class CBEval(AutoEvaluator):
                     nv = Unknown(str(e))
             self._assign(st.target, nv, st, aug=True)
             return
-        # Pass, Assert, Import, Global, Delete ...: no effect on values
+        if isinstance(st, (ast.Import, ast.ImportFrom)):
+            # an import inside the function: the same alias table, extended for this activation
+            tb = {"module": dict((self.aliases or {}).get("module", {})), "member": dict((self.aliases or {}).get("member", {}))}
+            _import_entries(st, tb)
+            self.aliases = tb
+            for a in st.names:
+                self.localnames.discard(a.asname or a.name)
+            return
+        # Pass, Assert, Global, Delete ...: no effect on values
 
     def _alloc_shape(self, vnode):
         return None          # allocations are array objects as soon as they are evaluated (see _builtin)
@@ -1345,6 +1415,7 @@ class CBEval(AutoEvaluator):
             sb = CBEval(self.fn, world=self.w.scratch(), facts=self.facts, callv=self.callv, inline=self.inline, handler_path=self.handler_path,
                         depth=self.depth, env=dict(self.env), cond=self.cond, src=self.src, subscript=self.subscript, pinned=self.pinned)
             sb.module_consts, sb.erase_T, sb.forward_stores, sb.active, sb.localnames = self.module_consts, self.erase_T, self.forward_stores, self.active, self.localnames
+            sb.sigs, sb.aliases = self.sigs, self.aliases
             sb.run(arm)
             outs.append(sb)
         a, b = outs
@@ -1530,6 +1601,38 @@ class CBEval(AutoEvaluator):
                     self.env[k] = v
 
 
+def _is_vector_index(v):
+    """an index that is certainly not a slice, a constant, a tuple or None: an index vector / mask held in a name or produced by a call"""
+    if not is_rat(v) or v.is_const() or eq(v, NONE):
+        return False
+    u = unfn(v)
+    if u is not None and (u[0] in ("slice", "tuple", "star") or u[0].startswith("kw:")):
+        return False
+    sc = split_call(v)
+    if sc is not None and sc[0] == "np.ix_":
+        return False
+    return True
+
+
+def _chained(base, ix):
+    """X[r][:, c] with index vectors / masks r and c selects the same elements as X[np.ix_(r, c)] (wherever both are valid they agree):
+    one canonical value for the two spellings"""
+    ub = unfn(base)
+    if ub is None or ub[0] != "idx" or not _is_vector_index(ub[1][1]):
+        return None
+    t = untuple(ix)
+    if t is None or len(t) != 2 or not _is_vector_index(t[1]):
+        return None
+    us = unfn(t[0])
+    if us is None or us[0] != "slice" or not all(eq(x, NONE) for x in us[1]):
+        return None
+    return F.fn("idx", ub[1][0], F.fn("call:np.ix_", ub[1][1], t[1]))
+
+
+def _is_suppress(node):
+    return isinstance(node, ast.Call) and dotted(node.func) in ("suppress", "contextlib.suppress")
+
+
 def _invert(v):
     u = unfn(v)
     if u is not None and u[0] == "invert":
@@ -1562,6 +1665,9 @@ class Run:
         self.facts = facts if facts is not None else Facts()
         self.kw = dict(callv=callv, inline=inline, handler_path=handler_path, objs=tuple(objs))
         self.consts, self.erase_T, self.forward_stores, self.cond = consts, erase_T, forward_stores, cond
+        mod = getattr(fn, "_vmod", None)
+        self.sigs = external_sigs(ctx, mod.rel) if mod is not None else None
+        self.aliases = import_aliases(ctx, mod.rel) if mod is not None else None
         self.ev = self._make(env)
         if run:
             self.ev.run(fn.body)
@@ -1569,6 +1675,7 @@ class Run:
     def _make(self, env, world=None):
         ev = CBEval(self.fn, world=world, facts=self.facts, env=dict(env), src=self.ctx.src, cond=self.cond, **self.kw)
         ev.module_consts, ev.erase_T, ev.forward_stores = self.consts, self.erase_T, self.forward_stores
+        ev.sigs, ev.aliases = self.sigs, self.aliases
         return ev
 
     # ---- expected side: an expression over the parameters, evaluated in the initial environment
@@ -1694,6 +1801,91 @@ def func(ctx, rel, name):
 def module_funcs(ctx, rel, exclude=()):
     funcs, _ = pristine(ctx, rel)
     return {q: f for q, f in funcs.items() if "." not in q and q not in exclude}
+
+
+CANON_MOD = {"numpy": "np", "scipy.linalg": "linalg", "scipy.sparse.linalg": "sp_la", "pandas": "pd", "numpy.linalg": "np.linalg"}
+
+
+def _canon_mod(full):
+    """the name a module goes by in the rules: np, linalg, sp_la, pd; otherwise its last component (pyyeti.locate -> locate)"""
+    return CANON_MOD.get(full, full.rsplit(".", 1)[-1])
+
+
+def import_aliases(ctx, rel):
+    """{"module": {local name: canonical module name}, "member": {local name: canonical dotted name}} from the module-level imports of `rel`:
+    `import numpy as xp` -> xp.zeros is np.zeros; `from pyyeti.locate import flippv as fp` -> fp(...) is locate.flippv(...); a name imported with
+    `from A import b` that is used as the root of a dotted name is a module (b.x), used bare it is a member of A (canonical A.b)"""
+    cache = ctx.src.__dict__.setdefault("_c06_aliases", {})
+    if rel in cache:
+        return cache[rel]
+    _, tree = pristine(ctx, rel)
+    out = {"module": {}, "member": {}}
+    for st in tree.body:
+        _import_entries(st, out)
+    cache[rel] = out
+    return out
+
+
+def _import_entries(st, table):
+    """add the names bound by one import statement to an alias table"""
+    module, member = table["module"], table["member"]
+    if isinstance(st, ast.Import):
+        for a in st.names:
+            if a.asname:
+                module[a.asname] = _canon_mod(a.name)
+            elif "." not in a.name:
+                module[a.name] = _canon_mod(a.name)
+    elif isinstance(st, ast.ImportFrom) and st.module and st.level == 0:
+        for a in st.names:
+            if a.name == "*":
+                continue
+            local = a.asname or a.name
+            module[local] = _canon_mod(st.module + "." + a.name)
+            if a.name not in ("SimpleNamespace", "warn", "suppress"):          # names the evaluator models under their bare name keep it
+                member[local] = _canon_mod(st.module) + "." + a.name
+    for k in [k for k, v in module.items() if k == v]:
+        del module[k]          # identity entries carry no information
+
+
+def external_sigs(ctx, rel):
+    """f(call name) -> [parameter names] for `alias.func` calls where `alias` is a module of the package imported by the module `rel`
+    (`from pyyeti import ytools`, `from pyyeti.nastran import n2p`, `import pyyeti.ytools as yt`) and `func` a plain function of it"""
+    import os
+    cache = ctx.src.__dict__.setdefault("_c06_sigs", {})
+    if rel in cache:
+        return cache[rel]
+    _, tree = pristine(ctx, rel)
+    alias = {}
+    for st in tree.body:
+        if isinstance(st, ast.ImportFrom) and st.module and st.level == 0:
+            for a in st.names:
+                alias[a.asname or a.name] = st.module.replace(".", "/") + "/" + a.name + ".py"
+            alias.setdefault(_canon_mod(st.module), st.module.replace(".", "/") + ".py")          # from pyyeti.ytools import multmd: ytools.multmd
+        elif isinstance(st, ast.Import):
+            for a in st.names:
+                if a.asname:
+                    alias[a.asname] = a.name.replace(".", "/") + ".py"
+    memo = {}
+
+    def sig_of(name):
+        if name in memo:
+            return memo[name]
+        out = None
+        parts = name.split(".")
+        if len(parts) == 2 and parts[0] in alias:
+            target = alias[parts[0]]
+            if os.path.isfile(os.path.join(ctx.src.repo, target)):
+                try:
+                    f = pristine(ctx, target)[0].get(parts[1])
+                except (SyntaxError, OSError):
+                    f = None
+                if f is not None and not f.args.vararg and not f.decorator_list:
+                    out = [x.arg for x in f.args.posonlyargs + f.args.args]
+        memo[name] = out
+        return out
+
+    cache[rel] = sig_of
+    return sig_of
 
 
 def module_consts(ctx, rel):
